@@ -23,7 +23,7 @@ STANDINS = __import__("os").path.join(__import__("os").path.dirname(__import__("
 
 
 def plan(tier, seed):
-    n = 10 if tier == "quick" else 250
+    n = 40 if tier == "quick" else 2500
     return [{"name": "s%d" % i, "seed": seed, "shard": i, "n": n, "extra_path": [STANDINS]} for i in range(NSHARDS)]
 
 
